@@ -76,6 +76,20 @@ pub fn cases(thorough: bool) -> Vec<Case> {
         }
         v.push(Case { cfg, wl: Wl::W12, read: ReadMode::default(), script: vec![], window: win, name: format!("{}/W12/ordered/abandoned-stream", if c == "default" { "streams2" } else { c }) });
     }
+    // every datagram padded to the MTU estimate while that estimate is above 1200: loss probes and
+    // other size-clamped datagrams carry length-less STREAM frames next to the padding
+    for wl in [Wl::W6, Wl::W2, Wl::W1] {
+        for (wn, win) in [("start", (0u64, 26u64)), ("mid", (14, 40))] {
+            if !thorough && wl != Wl::W6 && wn == "start" {
+                continue;
+            }
+            let mut cfg = cfg_by_name("padmtu");
+            cfg.client.initial_mtu = 1452;
+            cfg.server.initial_mtu = 1452;
+            cfg.client.name = "padmtu1452".into();
+            v.push(Case { cfg, wl, read: ReadMode::default(), script: vec![], window: win, name: format!("padmtu1452/{wl:?}/ordered/{wn}") });
+        }
+    }
     // auxiliary operations as part of the scenario: key updates, link MTU changes, window changes
     let aux: Vec<(&str, Vec<(u64, Op)>)> = vec![
         ("keyupd-c@20", vec![(20, Op::KeyUpdate(CLIENT))]),
@@ -127,7 +141,18 @@ pub fn run_case(base: Instant, c: &Case, devs: &Devs, alts: &[crate::sim::Fate])
             }
             if !done {
                 let d = diagnose(&p);
+                // discriminate one known way to stall (F37): with pad_to_mtu, padded ACK-only packets
+                // count as bytes in flight but nobody acknowledges them; once they fill the window
+                // and something ack-eliciting is queued, nothing - not even ACKs - leaves any more
+                let ack_only_deadlock = c.cfg.client.pad_to_mtu
+                    && [crate::sim::CLIENT, crate::sim::SERVER].iter().any(|n| {
+                        p.w.nodes[*n].conns.values().any(|s| {
+                            let pr = s.conn.verif_probe();
+                            pr.in_flight_ack_eliciting == 0 && pr.in_flight_bytes > 0 && pr.in_flight_bytes + s.conn.current_mtu() as u64 >= pr.cwnd
+                        })
+                    });
                 for (s, w) in completion(&p) {
+                    let s = if ack_only_deadlock { "pad_to_mtu-ack-only-packets-fill-window".to_string() } else { s };
                     viol.push((format!("incomplete:{s}"), format!("{w}; t={:?} steps={} {d}", p.w.t, p.w.steps)));
                 }
                 if viol.is_empty() {
